@@ -17,7 +17,9 @@ DECIDED = ("MIR makes unwinding explicit, so each clause is a path property: R5.
            "elaboration; R5.7 the only other process-global state, the call counters, is reset on the way into every installation (C07 R7.1), so "
            "a lifetime that ended by unwinding leaves nothing behind for the next one; R5.8 on every path of an install root a restore guard is "
            "constructed only after a write at its address has succeeded (so a refused installation unwinds with no guard for the refused "
-           "target: the guard's destructor would repeat the refused protection change and panic during unwinding)")
+           "target: the guard's destructor would repeat the refused protection change and panic during unwinding); R5.9 every returning path "
+           "of the restore guard's destructor performs the restoring write - there is no edge (std::thread::panicking() in particular) on "
+           "which it returns without restoring")
 NOT_DECIDED = ("aborts caused by allocation failure inside std; panics inside a user fake with a non-unwinding ABI (excluded by the property)")
 
 ABORTING = ("std::process::abort", "std::process::exit", "std::panic::catch_unwind", "std::intrinsics::abort", "core::intrinsics::abort",
@@ -118,6 +120,9 @@ def run(ck, models, tier):
                 ck.ob("R5.6", "restore-order-survives-a-panic-at-scope-exit", tm.target, ok,
                       "teardown of %s.%s: %s (a panic raised while guards are still stored hands them to the drop glue, which would "
                       "restore oldest-first and leave a function faked twice un-restored)" % (short(inj_), field_, why), wh)
+            # ---------------- R5.9 unwinding restores: the guard's destructor restores on every returning path, the panicking() edge included
+            if g_.drop_fn:
+                destructor_always_restores(ck, tm, g_, "R5.9")
         # ---------------- R5.7 no call-count state survives a lifetime that ended by unwinding: counters restart at every installation
         from .c07 import install_resets_counter
         install_resets_counter(ck, tm, "R5.7")
